@@ -19,7 +19,9 @@ is set): their witnesses are no longer runs of the model, and the statements the
 proved at full strength (`C07X_suspend_means_idle`, `C09X_suspend_excludes_policy`,
 `C07X_no_start_after_decision`).
 
-Finding still recorded as a `decide`d witness (a statement that turned out FALSE is not bent):
+Findings recorded as `decide`d witnesses (statements that turned out FALSE are not bent):
+* `C06X_late_fatal_ignored_witness` — a fatal failure recorded after the main thread has read the
+  flags (`wake`) but before it builds the result (`snapshot`) is ignored: a result is returned;
 * `C07X_early_orphan_stuck_witness` — the wanted "never stuck" statement is false *in the model* when
   a task ends with `OrphanedChildException` before the completion event is set; it is proved for all
   runs in which that exception is only raised after the event is set (`ParProofs.ReachO`).
@@ -156,26 +158,63 @@ theorem C09X_decision_reason (h : Reach n maxConc cfg s) {items : List BSt}
     Policy.toleranceExceeded cfg (items.countP isFailed) n = true :=
   (C09.C09_decide_iff_policy cfg _ _ n).1 (C09X_decision_sound h ho).2
 
-/-- What the main thread reports when it wakes: fatal has priority, then suspend, and a result is
-built exactly when neither is recorded — and then the policy is decided.  It wakes only after it has
-submitted every branch. -/
+/-- What the main thread does when it wakes and reads the flags: fatal has priority, then suspend (in
+both cases the queue is cleared and the outcome fixed at once); if neither flag is set it goes on to
+build a result (`returning`) — and then the policy is decided.  It wakes only after it has submitted
+every branch, and only once. -/
 theorem C09X_wake_outcome (h : Reach n maxConc cfg s) (hs : step s .wake = some s') :
-    s.evt = true ∧ s.out = none ∧
+    s.evt = true ∧ s.out = none ∧ s.returning = false ∧
     (s.fatal = true → s'.out = some .fatal) ∧
     (s.fatal = false → ∀ k, s.suspendExc = some k → s'.out = some (.suspend k)) ∧
     (s.fatal = false → s.suspendExc = none →
-      s'.out = some (.result ((List.range n).map s'.status)) ∧
+      s'.out = none ∧ s'.returning = true ∧ s'.queue = s.queue ∧ s'.status = s.status ∧
       Policy.shouldComplete cfg s.succ s.fail n = true) ∧
     s.submitted = n := by
   have hI := Inv.of_reach h
-  rcases wake_spec hs with ⟨he, ho, hsub, rfl⟩
-  refine ⟨he, ho, fun hf => by simp [hf], fun hf k hk => by simp [hf, hk], fun hf hk => ?_,
-    Nat.le_antisymm hI.sub_le (by rw [← hI.hn]; exact hsub)⟩
-  refine ⟨by simp [hf, hk, hI.hn], ?_⟩
-  rcases hI.evt_sound he with h1 | h1 | h1
-  · rw [hf] at h1; cases h1
-  · rw [hk] at h1; cases h1
-  · exact h1
+  have hI' := hI.step hs
+  have hsn : s.submitted = n := by
+    rcases wake_spec hs with ⟨_, _, hsub, _, _⟩
+    exact Nat.le_antisymm hI.sub_le (by rw [← hI.hn]; exact hsub)
+  rcases wake_spec hs with ⟨he, ho, hsub, hret, ⟨hf, rfl⟩ | ⟨hf, k, hk, rfl⟩ | ⟨hf, hk, rfl⟩⟩
+  · exact ⟨he, ho, hret, fun _ => rfl, (fun hf' => by rw [hf] at hf'; cases hf'),
+      (fun hf' => by rw [hf] at hf'; cases hf'), hsn⟩
+  · exact ⟨he, ho, hret, (fun hf' => by rw [hf] at hf'; cases hf'),
+      (fun _ k' hk' => by rw [hk] at hk'; cases hk'; rfl),
+      (fun _ hk' => by rw [hk] at hk'; cases hk'), hsn⟩
+  · exact ⟨he, ho, hret, (fun hf' => by rw [hf] at hf'; cases hf'),
+      (fun _ k' hk' => by rw [hk] at hk'; cases hk'),
+      (fun _ _ => ⟨ho, rfl, rfl, rfl, (hI'.ret_inv rfl).2.2.2⟩), hsn⟩
+
+/-- While the main thread is about to build the result (`returning`): the event is set, everything is
+submitted, no suspend decision exists or is taken any more, and the policy is and stays decided.  The
+fatal flag may still become set in this window — it is no longer looked at
+(`C06X_late_fatal_ignored_witness`). -/
+theorem C09X_returning (h : Reach n maxConc cfg s) (hr : s.returning = true) :
+    s.evt = true ∧ s.submitted = n ∧ s.suspendExc = none ∧
+    Policy.shouldComplete cfg s.succ s.fail n = true ∧
+    (∀ o, s.out = some o → ∃ items, o = .result items) :=
+  have hI := Inv.of_reach h
+  have h0 := hI.ret_inv hr
+  ⟨h0.1, h0.2.1, h0.2.2.1, h0.2.2.2, hI.ret_out hr⟩
+
+/-- A result is only ever built by `snapshot`, on the `returning` path. -/
+theorem C09X_result_only_by_snapshot (h : Reach n maxConc cfg s) {a : Act} (hs : step s a = some s')
+    {items : List BSt} (ho : s.out = none) (ho' : s'.out = some (.result items)) :
+    a = .snapshot ∧ s.returning = true := by
+  have hI := Inv.of_reach h
+  have hI' := hI.step hs
+  rcases out_step hI.toBook hs with e | rfl | rfl
+  · rw [e, ho] at ho'; cases ho'
+  · have hw := C09X_wake_outcome h hs
+    cases hf : s.fatal
+    · cases hk : s.suspendExc
+      · have := (hw.2.2.2.2.2.1 hf hk).1
+        rw [ho'] at this; cases this
+      · have := hw.2.2.2.2.1 hf _ hk
+        rw [ho'] at this; cases this
+    · have := hw.2.2.2.1 hf
+      rw [ho'] at this; cases this
+  · exact ⟨rfl, (snapshot_spec hs).1⟩
 
 /-- Once the policy is decided it stays decided (`C09_decision_stable`) and no suspend decision is
 taken afterwards: "event set by the policy, suspend exception set later" is impossible
@@ -197,31 +236,30 @@ theorem C09X_suspend_excludes_policy (h : Reach n maxConc cfg s) :
 
 /-! ## 4. the reported items -/
 
-/-- The snapshot taken by `wake`: queued tasks are cancelled (reported SUSPENDED), everything else is
-reported with the status it has at this very step; no branch is unsubmitted at that step. -/
-theorem C09X_result_snapshot (h : Reach n maxConc cfg s) (hs : step s .wake = some s')
-    {items : List BSt} (ho : s'.out = some (.result items)) :
-    items = (List.range n).map s'.status ∧
+/-- The result built by `snapshot` (a moment after the flags were read): tasks still queued are
+cancelled (reported SUSPENDED), everything else is reported with the status it has at this very step —
+callbacks that ran since `wake` are accounted; no branch is unsubmitted. -/
+theorem C09X_result_snapshot (h : Reach n maxConc cfg s) (hs : step s .snapshot = some s') :
+    s.returning = true ∧ s.out = none ∧
+    s'.out = some (.result ((List.range n).map s'.status)) ∧
     (∀ i, s'.status i = if i ∈ s.queue then .suspended else s.status i) ∧
-    (∀ i, i < n → items[i]? = some (if i ∈ s.queue then .suspended else s.status i)) ∧
-    s.submitted = n := by
+    (∀ items, s'.out = some (.result items) →
+      ∀ i, i < n → items[i]? = some (if i ∈ s.queue then .suspended else s.status i)) ∧
+    s'.queue = [] ∧ s.submitted = n ∧
+    Policy.shouldComplete cfg s'.succ s'.fail n = true := by
   have hI := Inv.of_reach h
-  have hw := C09X_wake_outcome h hs
-  rcases wake_spec hs with ⟨he, ho0, _, hs'⟩
+  have hI' := hI.step hs
+  rcases snapshot_spec hs with ⟨hret, ho0, hs'⟩
   have hst : ∀ i, s'.status i = if i ∈ s.queue then .suspended else s.status i := by
     intro i; rw [hs']
-  have hitems : items = (List.range n).map s'.status := by
-    cases hf : s.fatal
-    · cases hk : s.suspendExc
-      · have := (hw.2.2.2.2.1 hf hk).1
-        rw [ho] at this
-        cases this; rfl
-      · have := hw.2.2.2.1 hf _ hk
-        rw [ho] at this; cases this
-    · have := hw.2.2.1 hf
-      rw [ho] at this; cases this
-  refine ⟨hitems, hst, fun i hi => ?_, hw.2.2.2.2.2⟩
-  rw [hitems, getElem?_range_map, if_pos hi, hst]
+  have hout : s'.out = some (.result ((List.range n).map s'.status)) := by
+    rw [hs', hI.hn]
+  refine ⟨hret, ho0, hout, hst, fun items hit i hi => ?_, by rw [hs'], (hI.ret_inv hret).2.1, ?_⟩
+  · rw [hout] at hit
+    cases hit
+    rw [getElem?_range_map, if_pos hi, hst]
+  · have : s'.returning = true := by rw [hs']; exact hret
+    exact (hI'.ret_inv this).2.2.2
 
 /-- The branch a status stands for (payloads abstracted), as in `Par.itemsOf`. -/
 def toBranch : BSt → Policy.Branch Unit Unit
@@ -415,10 +453,19 @@ theorem C09X_cancel_only_after_decision (h : Reach n maxConc cfg s) {i : Nat}
         have h1' : u1.status i = .suspended := suspended_step hB hs1 h1
         refine ih u1 u' hu1 h1' ?_ hr
         intro items hit
-        rcases out_step hB hs1 with e | rfl
-        · rw [e] at hit; exact h2 items hit
-        · have := (C09X_result_snapshot hu hs1 hit).1
-          rw [this, getElem?_range_map, if_pos hin, h1']
+        cases hou : u.out with
+        | some o =>
+          have := (mono_step hB hs1).2.2.1 o hou
+          rw [this] at hit
+          rw [hou] at h2
+          exact h2 items hit
+        | none =>
+          have hsn := (C09X_result_only_by_snapshot hu hs1 hou hit).1
+          subst hsn
+          have := (C09X_result_snapshot hu hs1).2.2.1
+          rw [this] at hit
+          cases hit
+          rw [getElem?_range_map, if_pos hin, h1']
   intro acts s'' hr
   have hk := key acts s' s'' hR' hst' (fun items hit => by rw [hout'] at hit; cases hit) hr
   have hid'' := hidle hk.1 hk.2.1
@@ -433,10 +480,13 @@ theorem C09X_cancel_only_after_decision (h : Reach n maxConc cfg s) {i : Nat}
 /-! ## 5. no waiting for running branches -/
 
 /-- **C09, "without waiting".** As soon as the completion event is set — and the main thread is done
-submitting — it can return, whatever is still executing. -/
+submitting — it can read the flags (`wake`) and then, if it is returning a result, build it
+(`snapshot`), whatever is still executing. -/
 theorem C09X_returns_without_waiting (he : s.evt = true) (ho : s.out = none)
-    (hsub : s.submitted = s.n) : (step s .wake).isSome = true :=
-  wake_enabled he ho (Nat.le_of_eq hsub.symm)
+    (hsub : s.submitted = s.n) :
+    (s.returning = false → (step s .wake).isSome = true) ∧
+    (s.returning = true → (step s .snapshot).isSome = true) :=
+  ⟨fun hr => wake_enabled he ho (Nat.le_of_eq hsub.symm) hr, fun hr => snapshot_enabled hr ho⟩
 
 /-- **The main thread returns only after it has submitted every branch.** -/
 theorem C09X_all_submitted_before_return (h : Reach n maxConc cfg s) (ho : s.out.isSome = true) :
@@ -681,9 +731,9 @@ theorem C07X_early_orphan_stuck_witness :
 /-- … and such a state is stuck for good: only time passes. -/
 theorem C07X_stuck_forever (ha : s.active = []) (hq : s.queue = []) (ht : s.timers = [])
     (he : s.evt = false) (hsub : s.n ≤ s.submitted) (hrf : s.refreshing = none)
-    (hen : s.ended = []) {a : Act} (hs : step s a = some s') :
+    (hen : s.ended = []) (hret : s.returning = false) {a : Act} (hs : step s a = some s') :
     (∃ d, a = .tick d) ∧ s'.active = [] ∧ s'.queue = [] ∧ s'.timers = [] ∧ s'.evt = false ∧
-    s'.n ≤ s'.submitted ∧ s'.refreshing = none ∧ s'.ended = [] := by
+    s'.n ≤ s'.submitted ∧ s'.refreshing = none ∧ s'.ended = [] ∧ s'.returning = false := by
   cases a with
   | submit i =>
     simp only [Par.step, Par.submit_] at hs
@@ -697,9 +747,10 @@ theorem C07X_stuck_forever (ha : s.active = []) (hq : s.queue = []) (ht : s.time
   | finish i f => simp [Par.step, Par.finish, hen] at hs
   | timerFire i => simp [Par.step, Par.timerFire, ht] at hs
   | resubmit i ok => simp [Par.step, Par.resubmit, hrf] at hs
-  | tick d => cases hs; exact ⟨⟨d, rfl⟩, ha, hq, ht, he, hsub, hrf, hen⟩
+  | tick d => cases hs; exact ⟨⟨d, rfl⟩, ha, hq, ht, he, hsub, hrf, hen, hret⟩
   | cancel i => simp [Par.step, Par.cancel_, he] at hs
   | wake => simp [Par.step, Par.wake, he] at hs
+  | snapshot => simp [Par.step, Par.snapshot, hret] at hs
 
 /-- **C07, never stuck.** In every run in which the callback of a task that ended with
 `OrphanedChildException` only runs after the completion event is set (`ReachO`: the restriction is on
@@ -772,15 +823,21 @@ theorem C07X_enabled (s : St) :
       (step s (.cancel i)).isSome = true) ∧
     (s.submitted < s.n → (step s (.submit s.submitted)).isSome = true) ∧
     (∀ i ok, s.refreshing = some i → (step s (.resubmit i ok)).isSome = true) ∧
-    (∀ i, s.refreshing.isSome = true → step s (.timerFire i) = none) :=
+    (∀ i, s.refreshing.isSome = true → step s (.timerFire i) = none) ∧
+    (s.evt = true → s.out = none → s.n ≤ s.submitted → s.returning = false →
+      (step s .wake).isSome = true) ∧
+    (s.returning = true → s.out = none → (step s .snapshot).isSome = true) :=
   ⟨fun _ f hi => taskEnd_enabled hi f, fun _ _ hm => finish_enabled hm,
     fun _ _ hq hw => begin_enabled hq hw, tick_enabled s,
     fun _ he ho hsub hi => cancel_enabled he ho hsub hi, submit_enabled,
-    fun _ ok hr => resubmit_enabled hr ok, fun i hr => timerFire_disabled hr i⟩
+    fun _ ok hr => resubmit_enabled hr ok, fun i hr => timerFire_disabled hr i,
+    fun he ho hsub hr => wake_enabled he ho hsub hr, fun hr ho => snapshot_enabled hr ho⟩
 
 /-! ## 8. fatal failures -/
 
-/-- **C06/C07, a fatal failure wakes the main thread, which raises it** (once it is done submitting). -/
+/-- **C06/C07, a fatal failure wakes the main thread, which raises it** — provided the flag is set
+before the main thread reads the flags (`returning = false`); once it is done submitting.  A fatal
+failure recorded after that is ignored: `C06X_late_fatal_ignored_witness`. -/
 theorem C06X_fatal_wakes (h : Reach n maxConc cfg s) :
     (∀ i, finish s i .fatal = some s' → s'.fatal = true ∧ s'.evt = true) ∧
     (∀ i, resubmit s i false = some s' →
@@ -788,18 +845,85 @@ theorem C06X_fatal_wakes (h : Reach n maxConc cfg s) :
     (s.fatal = true → s.evt = true) ∧
     (∀ a, step s a = some s' → s.fatal = true → s'.fatal = true) ∧
     (s.fatal = true → wake s = some s' → s'.out = some .fatal) ∧
-    (s.fatal = true → s.out = none → s.submitted = n →
+    (s.fatal = true → s.out = none → s.submitted = n → s.returning = false →
       ∃ s'', step s .wake = some s'' ∧ s''.out = some .fatal) ∧
     (s.out = some .fatal → s.fatal = true) := by
   have hI := Inv.of_reach h
   refine ⟨fun i hs => finish_fatal hs, fun i hs => resubmit_false_fatal hI.toBook hs,
     hI.fatal_evt, fun a hs => (mono_step hI.toBook hs).1, fun hf hs => wake_fatal hf hs, ?_,
     hI.out_fatal⟩
-  intro hf ho hsub
-  have hen := wake_enabled (hI.fatal_evt hf) ho (by rw [hI.hn, hsub]; exact Nat.le_refl _)
+  intro hf ho hsub hret
+  have hen := wake_enabled (hI.fatal_evt hf) ho (by rw [hI.hn, hsub]; exact Nat.le_refl _) hret
   cases hw : step s .wake with
   | none => rw [hw] at hen; cases hen
   | some s'' => exact ⟨s'', rfl, wake_fatal hf hw⟩
+
+set_option synthInstance.maxSize 4096 in
+/-- **Finding (late fatal is ignored).** Reading the flags (`wake`) and building the result
+(`snapshot`) are two instants.  n = 3, two workers, `min_successful = 1`: branch 1 succeeds, the policy
+is decided, the main thread wakes and finds neither flag set (`returning`); only now branch 0's task
+dies with a fatal failure (failed checkpoint) and its callback sets the fatal flag — and the main
+thread nevertheless returns a **result** (branch 0 reported RUNNING, i.e. started; `fatal = true` is
+left behind unread).  Had the callback run before `wake`, the outcome would be `fatal` (second
+component).  What the model allows exactly: `out = some (.result _) ∧ fatal = true` is reachable iff the
+fatal flag is set after `wake`; before `wake` it always wins (`C06X_fatal_wakes`). -/
+theorem C06X_late_fatal_ignored_witness :
+    (runActs (init 3 2 ⟨some 1, none, none⟩)
+      [.submit 0, .submit 1, .submit 2, .begin 0, .begin 1, .taskEnd 1 .ok, .finish 1 .ok, .begin 2,
+       .wake, .taskEnd 0 .fatal, .finish 0 .fatal, .snapshot]).map
+      (fun s => (s.out, s.fatal, s.active))
+      = some (some (.result [.running, .completed, .running]), true, [2]) ∧
+    (runActs (init 3 2 ⟨some 1, none, none⟩)
+      [.submit 0, .submit 1, .submit 2, .begin 0, .begin 1, .taskEnd 1 .ok, .finish 1 .ok, .begin 2,
+       .taskEnd 0 .fatal, .finish 0 .fatal, .wake]).map (fun s => (s.out, s.fatal))
+      = some (some .fatal, true) ∧
+    (runActs (init 3 2 ⟨some 1, none, none⟩)
+      [.submit 0, .submit 1, .submit 2, .begin 0, .begin 1, .taskEnd 1 .ok, .finish 1 .ok, .begin 2,
+       .wake]).map (fun s => (s.out, s.returning, s.fatal, s.active))
+      = some (none, true, false, [0, 2]) ∧
+    (runActs (init 3 2 ⟨some 1, none, none⟩)
+      [.submit 0, .submit 1, .submit 2, .begin 0, .begin 1, .taskEnd 1 .ok, .finish 1 .ok, .begin 2,
+       .wake, .wake]).isNone = true := by decide
+
+/-- The strongest true statement about a returned result and the fatal flag: when the main thread read
+the flags (the `wake` step that set `returning`) the flag was not set; every reachable state with a
+result is on that path. -/
+theorem C06X_result_means_no_fatal_at_wake (h : Reach n maxConc cfg s) {a : Act}
+    (hs : step s a = some s') (hr : s.returning = false) (hr' : s'.returning = true) :
+    a = .wake ∧ s.fatal = false ∧ s.suspendExc = none ∧ s.evt = true ∧ s.out = none ∧
+    Policy.shouldComplete cfg s.succ s.fail n = true := by
+  have hI := Inv.of_reach h
+  have hw : a = .wake := by
+    cases a with
+    | submit i => rcases submit_spec hs with ⟨_, _, rfl⟩; rw [hr] at hr'; cases hr'
+    | begin i => rcases begin_spec hs with ⟨_, _, _, rfl⟩; rw [hr] at hr'; cases hr'
+    | taskEnd i f => rcases taskEnd_spec hs with ⟨_, rfl⟩; rw [hr] at hr'; cases hr'
+    | finish i f =>
+      exfalso
+      rcases finish_spec hs with ⟨_, ⟨b, _, _, rfl⟩ | ⟨_, rfl⟩ | ⟨_, rfl⟩⟩
+      · rcases decide_cases { s with
+          ended := s.ended.erase (i, f),
+          status := fun x => if x = i then b else s.status x,
+          succ := s.succ + (if isCompleted b then 1 else 0),
+          fail := s.fail + (if isFailed b then 1 else 0),
+          timers := finTimers f s.timers i } with ⟨_, e⟩ | ⟨_, k, _, e⟩ | ⟨_, _, e⟩ <;>
+          rw [e] at hr' <;> rw [hr] at hr' <;> cases hr'
+      · rw [hr] at hr'; cases hr'
+      · rw [hr] at hr'; cases hr'
+    | timerFire i =>
+      rcases timerFire_spec hI.toBook hs with ⟨_, t, _, _, _, rfl⟩; rw [hr] at hr'; cases hr'
+    | resubmit i ok =>
+      rcases resubmit_spec hs with ⟨_, ⟨_, _, rfl⟩ | ⟨_, _, rfl⟩ | ⟨_, rfl⟩⟩ <;>
+        rw [hr] at hr' <;> cases hr'
+    | tick d => cases hs; rw [hr] at hr'; cases hr'
+    | cancel i => rcases cancel_spec hs with ⟨_, _, _, _, rfl⟩; rw [hr] at hr'; cases hr'
+    | wake => rfl
+    | snapshot => rcases snapshot_spec hs with ⟨_, _, rfl⟩; rw [hr] at hr'; cases hr'
+  subst hw
+  rcases wake_spec hs with ⟨he, ho, _, _, ⟨_, rfl⟩ | ⟨_, k, _, rfl⟩ | ⟨hf, hk, rfl⟩⟩
+  · rw [hr] at hr'; cases hr'
+  · rw [hr] at hr'; cases hr'
+  · exact ⟨rfl, hf, hk, he, ho, ((hI.step hs).ret_inv rfl).2.2.2⟩
 
 /-- Flags never go back: `fatal`, the event, the main thread's outcome and the presence of a suspend
 decision are monotone along every step. -/
@@ -850,13 +974,13 @@ example :
       [.submit 0, .submit 1, .submit 2, .begin 0, .begin 1, .taskEnd 0 .ok, .finish 0 .ok]).map
       (fun s => (s.evt, s.active, s.queue, s.maxActive)) = some (true, [1], [2], 2) ∧
     (runActs (init 3 2 ⟨some 1, none, none⟩)
-      [.submit 0, .submit 1, .submit 2, .begin 0, .begin 1, .taskEnd 0 .ok, .finish 0 .ok, .wake]).map
+      [.submit 0, .submit 1, .submit 2, .begin 0, .begin 1, .taskEnd 0 .ok, .finish 0 .ok, .wake, .snapshot]).map
       (fun s => (s.out, s.active)) =
         some (some (.result [.completed, .running, .suspended]), [1]) := by decide
 
 /-- (ii) fail-fast: no tolerance configured, one worker; the first failure decides the policy. -/
 example :
-    (runActs (init 3 1 ⟨none, none, none⟩) [.submit 0, .submit 1, .submit 2, .begin 0, .taskEnd 0 .err, .finish 0 .err, .wake]).map
+    (runActs (init 3 1 ⟨none, none, none⟩) [.submit 0, .submit 1, .submit 2, .begin 0, .taskEnd 0 .err, .finish 0 .err, .wake, .snapshot]).map
       (fun s => (s.out, s.succ, s.fail)) =
         some (some (.result [.failed, .suspended, .suspended]), 0, 1) := by decide
 
@@ -870,7 +994,7 @@ example :
       [.submit 0, .submit 1, .begin 0, .begin 1, .taskEnd 0 (.suspUntil 5), .finish 0 (.suspUntil 5), .timerFire 0, .resubmit 0 true]).isNone = true ∧
     (runActs (init 2 0 ⟨none, none, none⟩)
       [.submit 0, .submit 1, .begin 0, .begin 1, .taskEnd 0 (.suspUntil 5), .finish 0 (.suspUntil 5), .tick 5, .timerFire 0, .resubmit 0 true, .begin 0,
-       .taskEnd 0 .ok, .finish 0 .ok, .taskEnd 1 .ok, .finish 1 .ok, .wake]).map (fun s => s.out)
+       .taskEnd 0 .ok, .finish 0 .ok, .taskEnd 1 .ok, .finish 1 .ok, .wake, .snapshot]).map (fun s => s.out)
       = some (some (.result [.completed, .completed])) := by decide
 
 /-- (iv) fatal: a failed checkpoint in a branch, or in the timer thread's resubmission, wakes the main
@@ -902,7 +1026,7 @@ example :
     (runActs (init 5 2 ⟨none, none, none⟩)
       [.submit 0, .submit 1, .submit 2, .submit 3, .submit 4,
        .begin 0, .begin 1, .taskEnd 1 (.suspUntil 0), .finish 1 (.suspUntil 0), .begin 2, .taskEnd 2 .susp, .finish 2 .susp, .begin 3,
-       .timerFire 1, .resubmit 1 true, .taskEnd 3 .err, .finish 3 .err, .cancel 4, .begin 1, .wake]).map
+       .timerFire 1, .resubmit 1 true, .taskEnd 3 .err, .finish 3 .err, .cancel 4, .begin 1, .wake, .snapshot]).map
       (fun s => (s.out, s.active, s.maxActive)) =
         some (some (.result [.running, .running, .suspended, .failed, .suspended]), [0, 1], 2) := by
   decide
@@ -951,7 +1075,7 @@ example :
        .taskEnd 1 .err, .finish 1 .err, .wake]).isNone = true ∧
     (runActs (init 4 3 ⟨none, none, none⟩)
       [.submit 0, .submit 1, .begin 0, .taskEnd 0 (.suspUntil 0), .finish 0 (.suspUntil 0), .timerFire 0, .resubmit 0 true, .begin 1,
-       .taskEnd 1 .err, .finish 1 .err, .submit 2, .submit 3, .wake]).map (fun s => s.out)
+       .taskEnd 1 .err, .finish 1 .err, .submit 2, .submit 3, .wake, .snapshot]).map (fun s => s.out)
       = some (some (.result [.suspended, .failed, .suspended, .suspended])) := by decide
 
 set_option synthInstance.maxSize 1024 in
@@ -959,9 +1083,9 @@ set_option synthInstance.maxSize 1024 in
 pops branch 1's due entry and resets it to PENDING (`timerFire 1`: refresh in flight, nothing queued);
 the main thread's `submit 2` gets in between; only then the resubmitter queues branch 1: the work
 queue is `[2, 1]` — whereas with the resubmitter first it is `[1, 2]`.  While a refresh is in flight
-the timer thread pops no further due entry.  The main thread may leave while a refresh is in flight:
-the late resubmitter then bails out (branch reported PENDING, i.e. started), or records a fatal
-failure that nobody reads any more. -/
+the timer thread pops no further due entry.  The main thread may read the flags and build the result
+while a refresh is in flight: the resubmitter then bails out (branch reported PENDING, i.e. started),
+or records a fatal failure that nobody reads any more. -/
 example :
     (runActs (init 3 0 ⟨none, none, none⟩)
       [.submit 0, .begin 0, .submit 1, .begin 1, .taskEnd 1 (.suspUntil 0), .finish 1 (.suspUntil 0), .timerFire 1]).map
@@ -982,11 +1106,11 @@ example :
       = some ([1], some 0) ∧
     (runActs (init 2 0 ⟨none, none, none⟩)
       [.submit 0, .submit 1, .begin 0, .begin 1, .taskEnd 0 (.suspUntil 0), .finish 0 (.suspUntil 0), .timerFire 0,
-       .taskEnd 1 .err, .finish 1 .err, .wake, .resubmit 0 true]).map (fun s => (s.out, s.queue, s.status 0, s.fatal))
+       .taskEnd 1 .err, .finish 1 .err, .wake, .resubmit 0 true, .snapshot]).map (fun s => (s.out, s.queue, s.status 0, s.fatal))
       = some (some (.result [.pending, .failed]), [], .pending, false) ∧
     (runActs (init 2 0 ⟨none, none, none⟩)
       [.submit 0, .submit 1, .begin 0, .begin 1, .taskEnd 0 (.suspUntil 0), .finish 0 (.suspUntil 0), .timerFire 0,
-       .taskEnd 1 .err, .finish 1 .err, .wake, .resubmit 0 false]).map (fun s => (s.out, s.fatal))
+       .taskEnd 1 .err, .finish 1 .err, .wake, .resubmit 0 false, .snapshot]).map (fun s => (s.out, s.fatal))
       = some (some (.result [.pending, .failed]), true) := by decide
 
 set_option synthInstance.maxSize 4096 in
@@ -1008,7 +1132,7 @@ example :
     (runActs (init 2 1 ⟨none, none, none⟩)
       [.submit 0, .begin 0, .taskEnd 0 (.suspUntil 0), .finish 0 (.suspUntil 0), .timerFire 0,
        .submit 1, .begin 1, .resubmit 0 true, .taskEnd 1 .ok, .begin 0, .finish 1 .ok,
-       .taskEnd 0 .ok, .finish 0 .ok, .wake]).map (fun s => (s.out, s.maxActive, s.succ, s.ended))
+       .taskEnd 0 .ok, .finish 0 .ok, .wake, .snapshot]).map (fun s => (s.out, s.maxActive, s.succ, s.ended))
       = some (some (.result [.completed, .completed]), 1, 2, []) ∧
     (runActs (init 2 1 ⟨none, none, none⟩) [.submit 0, .begin 0, .finish 0 .ok]).isNone = true := by
   decide
